@@ -338,7 +338,7 @@ def _ops_for(sub, model, rng, tier, slow_ok=False):
     """catalogue of operations applicable to the subject"""
     nd = model.n_dim
     if sub["kind"] == "transformed":
-        ops = ["pdf_arr", "pdf_list", "sample_none", "sample_int", "ecdf", "cond_sample", "cond_cdf", "cond_icdf", "plot_iso", "fit_another", "sample_gen", "save"]
+        ops = ["pdf_arr", "sample_none", "sample_int", "ecdf", "cond_sample", "cond_cdf", "cond_icdf", "plot_iso", "fit_another", "sample_gen", "save"]
         if tier != "quick":
             ops += ["iform"]
             if slow_ok:
